@@ -390,11 +390,27 @@ def cql_string_fails(C, t, sep):
         return True
 
 
+def plain_names(t, names):
+    """t with every user type renamed to a plain lower-case word (the same word for the same name)"""
+    if t[0] in V.SCALARS:
+        return t
+    if t[0] == 'udt':
+        return ('udt', t[1], names.setdefault(t[2], 'u%d' % len(names)), tuple((fn, plain_names(ft, names)) for fn, ft in t[3]))
+    if t[0] == 'vector':
+        return ('vector', plain_names(t[1], names), t[2])
+    return (t[0],) + tuple(plain_names(x, names) for x in t[1:])
+
+
 def cql_blame(C, t, sep):
-    """Fingerprint component for a tree whose CQL spelling failed: the peculiarity of a user type name that fails on
+    """Fingerprint component for a tree whose CQL spelling failed: 'plain' (or 'vector') when the same tree with plain
+    user type names fails too (the names are not the reason); else the peculiarity of a user type name that fails on
     its own as frozen<name>; when every name is read correctly alone and the tree spells two or more quoted names, it
-    is their coexistence in one string; otherwise the most peculiar name of the tree (as before)."""
+    is their coexistence in one string; otherwise the most peculiar name of the tree."""
     udts = list(dict.fromkeys(x for x in V.walk(t) if x[0] == 'udt'))
+    if udts:
+        p = plain_names(t, {})
+        if cql_string_fails(C, p, sep):
+            return name_feature(p)
     for u in udts:
         if cql_string_fails(C, ('frozen', u), sep):
             return name_feature(u)
@@ -440,7 +456,7 @@ def _clause_cql(part, reg, t, case):
 
 
 def check_tree(part, reg, t, idx):
-    case = {'type': t, 'descriptor': V.marshal_class(t, full=False)}
+    case = {'type': t, 'type_repr': repr(t), 'descriptor': V.marshal_class(t, full=False)}
     part.count('trees')
     nt = norm_varchar(t)
     try:
@@ -472,7 +488,7 @@ def redefinition_pairs():
 
 def check_redefinition(part, reg, t1, t2):
     """descriptor of t2 parsed after the descriptor of t1 (same type name): the second parse must describe t2"""
-    case = {'type': t2, 'after': t1, 'descriptor': V.marshal_class(t2, full=False), 'descriptor_before': V.marshal_class(t1, full=False)}
+    case = {'type': t2, 'after': t1, 'type_repr': repr(t2), 'after_repr': repr(t1), 'descriptor': V.marshal_class(t2, full=False), 'descriptor_before': V.marshal_class(t1, full=False)}
     part.count('trees')
     part.count('redefinitions')
     alone, after = Part(), Part()
@@ -556,7 +572,7 @@ def run_chunk(args):
     for t in cql_only:
         part.count('trees')
         part.count('cql_only_trees')
-        clause_cql(part, reg, t, {'type': t, 'cql_only': True})
+        clause_cql(part, reg, t, {'type_repr': repr(t), 'cql': V.cql_name(t), 'cql_only': True})
         part.mark_nontrivial(hash(t))
     if redefinitions:
         for t1, t2 in redefinition_pairs():
@@ -591,15 +607,18 @@ def run(ctx):
 
 
 def replay(ctx, data):
-    t = tuplify(data['type'])
+    import ast
+    # the JSON form of a deep tree is cut off by the recorder: the tree is also recorded as its python literal
+    t = ast.literal_eval(data['type_repr']) if data.get('type_repr') else tuplify(data['type'])
     import logging
     logging.disable(logging.CRITICAL)
     part = Part()
     reg = Registries()
-    if data.get('after'):
-        check_redefinition(part, reg, tuplify(data['after']), t)
+    if data.get('after') or data.get('after_repr'):
+        t1 = ast.literal_eval(data['after_repr']) if data.get('after_repr') else tuplify(data['after'])
+        check_redefinition(part, reg, t1, t)
     elif data.get('cql_only'):
-        clause_cql(part, reg, t, {'type': t, 'cql_only': True})
+        clause_cql(part, reg, t, {'type_repr': repr(t), 'cql_only': True})
     else:
         check_tree(part, reg, t, 1)
     for fp, what, _ in part.violations:
